@@ -276,7 +276,10 @@ def check_invariants(ctx, R="C13.invariants"):
         st = lib.statement_of(y)
         blk = _block(st)
         i = blk.index(st)
-        if i + 1 < len(blk) and "checkInvariants" in unparse(blk[i + 1]):
+        # ... unconditionally: the very next statement is the call itself (a re-check gated by a flag or parameter is no re-check
+        # for the callers that switch it off, e.g. the implicit try-interrupt of `wait for` / `do ... until`)
+        nxt_ = next((s_ for s_ in blk[i + 1 :] if not lib.is_inert(s_)), None)
+        if isinstance(nxt_, ast.Expr) and isinstance(nxt_.value, ast.Call) and isinstance(nxt_.value.func, ast.Attribute) and nxt_.value.func.attr == "checkInvariants":
             good = True
     # ... with the same first argument as the compiled code passes after every other action: the compiler hands its `self`
     # (the agent) to runTryInterrupt as the second argument and to checkInvariants as the first one
